@@ -8,4 +8,6 @@ CONSTANTS
   Mutant = "none"
   MaxNodes = 4
   WithQuit = TRUE
+  WithErr = TRUE
+  WithSkip = TRUE
 INVARIANT EmitBehaviour
